@@ -13,6 +13,9 @@ if [ $refresh = 1 ] && [ -d $sb/verif ]; then
   # bring the copy up to date with /verif (build outputs of the copy are kept)
   rsync -a --delete --exclude work --exclude replays --exclude harness/target --exclude lean/.lake --exclude .git --exclude harness/Cargo.toml /verif/ $sb/verif/
   git -C $sb/repo checkout -q -- . 2>/dev/null
+  # the harness manifest follows /verif's, re-pointed at the copied repository
+  sed "s#path = \"/repo\"#path = \"$sb/repo\"#" /verif/harness/Cargo.toml > $sb/verif/harness/Cargo.toml.new
+  cmp -s $sb/verif/harness/Cargo.toml.new $sb/verif/harness/Cargo.toml && rm $sb/verif/harness/Cargo.toml.new || mv $sb/verif/harness/Cargo.toml.new $sb/verif/harness/Cargo.toml
 fi
 if [ ! -d $sb/verif ]; then
   mkdir -p $sb
